@@ -357,10 +357,22 @@ def run(ctx: Ctx):
         iff = next((p_ for p_ in _anc(c) if isinstance(p_, ast.If) and any(c is x for x in ast.walk(p_.test))), None)
         ok = iff is not None and isinstance(iff.test, ast.UnaryOp) and any(
             isinstance(s_, ast.Return) and isinstance(s_.value, ast.Constant) and s_.value.value is False for s_ in iff.body)
+        # ... or the conjunction form: `return all(limits.ok(...) for limits in ...)`
+        if not ok:
+            comp = next((p_ for p_ in _anc(c) if isinstance(p_, (ast.GeneratorExp, ast.ListComp)) and p_.elt is c), None)
+            allc = getattr(comp, "_parent", None) if comp is not None else None
+            ok = isinstance(allc, ast.Call) and norm(allc.func) == "all" and isinstance(getattr(allc, "_parent", None), ast.Return) \
+                and not comp.generators[0].ifs
         ctx.ob("R05.1", f"{lok.qual}: failing {norm(c)[:50]} refuses", (lok, c), ok, "if not limits.ok(...): return False" if ok else
                "a refusing task limit does not make limitsOk() answer False", key=key_of("R05.1", lok, None, "refuses"))
-    src_ok = {norm(l.iter) for l in own_nodes(lok) if isinstance(l, ast.For)}
-    src_inc = {norm(l.iter) for l in own_nodes(linc) if isinstance(l, ast.For)}
+    def _sources(fn):
+        out = {norm(l.iter) for l in own_nodes(fn) if isinstance(l, ast.For)}
+        for x in own_nodes(fn):
+            if isinstance(x, (ast.GeneratorExp, ast.ListComp, ast.SetComp)):
+                out |= {norm(gen.iter) for gen in x.generators}
+        return out
+    src_ok = _sources(lok)
+    src_inc = _sources(linc)
     ok = src_ok == src_inc == {"self.getAllLimits()"}
     ctx.ob("R05.1", f"task limits: checked over {sorted(src_ok)}, incremented over {sorted(src_inc)}", lok, ok,
            "task + ancestor limits are both consulted and counted" if ok else "task-limit check and increment enumerate different holders",
